@@ -197,7 +197,7 @@ def rule_ptr(ctx, F):
         strict = None
         for (x, rel, y, e) in relation_edges(b, bb, F):
             if canon_nobb(x) == canon_nobb(start) and deep_strip(y)[0] == "phi":
-                strict = (rel, e)
+                strict = (rel, e, deep_strip(y)[1])
         ctx.ob(R, b, "%s: strictly before the previous start" % nm, strict is not None and strict[0] == "<",
                "a compression pointer is followed without having been checked to point strictly before the position "
                "it was read from (found %s)" % (strict[0] if strict else "no guard"), b.where(bb))
@@ -207,8 +207,8 @@ def rule_ptr(ctx, F):
             upd = False
             for bi in cyc:
                 for st in b.blocks[bi]["s"]:
-                    if st[0] == "=" and len(st[1]) == 1 and b.var_name(st[1][0]) == "old_start":
-                        upd = True
+                    if st[0] == "=" and len(st[1]) == 1 and st[1][0] == strict[2]:
+                        upd = True   # the bound the pointer is compared with is reassigned inside the loop
             ctx.ob(R, b, "%s: guard re-evaluated against an updated bound" % nm, fresh and upd,
                    "the backward check is not re-evaluated per followed pointer, or old_start is never advanced", b.where(bb))
 
@@ -263,9 +263,7 @@ def rule_cmp(ctx, F):
             v = deep_strip(b.term_of_rvalue(sst[2]))
             idx = [pr for pr in sst[1][1:] if isinstance(pr, list) and pr[0] == "[]"]
             itxt = show(deep_strip(b.term_of_local(idx[0][1]))) if idx else ""
-            if "parent" in itxt or (idx and b.var_name(idx[0][1]) is None and "parent" in show(deep_strip(b.term_of_place([idx[0][1]])))):
-                used.append((sbi, v))
-        if not used:
+        if True:
             # fall back: the stamp written inside the lookup loop
             from rulelib import cyclic_blocks
             cyc = cyclic_blocks(b)
